@@ -3,8 +3,9 @@
 # extra checks listed in seeded/EXTRA_CHECKS), revert; writes seeded/<ID>-<X>/detect_<CHECK>.json and seeded/RESULTS.md.
 cd /verif
 sel="$@"
-for d in seeded/C??-?; do
-  s=$(basename $d); id=${s%-*}
+for d in seeded/C??-? seeded/C??r?-?; do
+  [ -d $d ] || continue
+  s=$(basename $d); id=${s:0:3}
   if [ -n "$sel" ] && ! echo " $sel " | grep -q " $s "; then continue; fi
   patch=$d/patch.diff; [ -f $d/patch_rebased.diff ] && patch=$d/patch_rebased.diff
   checks="$id $(grep "^$s " seeded/EXTRA_CHECKS 2>/dev/null | cut -d' ' -f2-)"
